@@ -230,9 +230,29 @@ def search_float(ctx, n):
         if conv and V.get(g["S"], 0.0) > 1e-6:
             fg.append((g, V))
     strs = [[list(x) for x in M.strings(g["nT"], 3)][:15] for g, _ in fg]
-    res = run_jobs([{"g": g, "sr": "float", "queries": [{"op": "locally_normalize", "xs": xs}]} for (g, _), xs in zip(fg, strs)])
+    def eos_queries(xs):
+        return [x + ["eos"] for x in xs[:8]] + [x + ["eos", "eos"] for x in xs[:4]] + [x for x in xs[:4]] + [x[:1] + ["eos"] + x[1:] for x in xs[1:4]]
+
+    res = run_jobs([{"g": g, "sr": "float", "queries": [{"op": "locally_normalize", "xs": xs}, {"op": "add_eos_call", "xs": eos_queries(xs)}]} for (g, _), xs in zip(fg, strs)])
     for (g, V), xs, r in zip(fg, strs, res):
         ctx.dist("float-recursive:grammars")
+        # add_EOS on recursive grammars (the start symbol may be recursive only through other nonterminals)
+        qe = r[1]
+        if "err" in qe:
+            viol(ctx, f"add_EOS:float-error:{qe['err'][:30]}", f"add_EOS raised {qe['err']}", {"kind": "norm-error", "sr": "float", "grammar": g, "error": qe["err"]})
+        else:
+            me = M.mirror_float(g)
+            for toks, enc in zip(eos_queries(xs), qe["ok"]):
+                v = dec_val(enc)
+                if toks and toks[-1] == "eos" and "eos" not in toks[:-1]:
+                    ref = me.lang(g["S"], toks[:-1], fuel=400, tol=1e-14)
+                    if ref is None:
+                        continue
+                else:
+                    ref = 0.0
+                ctx.cov["oracle_cases"] += 1
+                if not isinstance(v, (float, Fraction, int)) or abs(float(v) - ref) > 1e-6 * max(1.0, abs(ref)):
+                    viol(ctx, "add_EOS:" + ("value" if ref else "bad-eos-position"), f"add_EOS(cfg)({toks}) = {v}, expected {ref}", {"kind": "eos", "sr": "float", "grammar": g, "tokens": toks, "observed": str(v), "expected": str(ref)})
         q = r[0]
         ctx.cov["oracle_cases"] += 1
         if "err" in q:
